@@ -310,6 +310,17 @@ def _worker(job):
                 if (g2 != got or g3 != got) and "C08" not in viol:
                     viol["C08"] = {"cfg": cfg, "verdicts": v, "what": "list/generator/callback delivery differ",
                                    "list": got, "generator": g2, "callback": g3}
+                if got and "C08" not in viol:
+                    # the three deliveries also agree when a consumer walked away from the generator after its first token
+                    ref[0] = v
+                    it_ = tk.tokenize(ListSource(len(v)), generator=True)
+                    next(it_, None)
+                    del it_
+                    g4, _ = impl_tokens(tk, ref, v, "list")
+                    g5, _ = impl_tokens(tk, ref, v, "cb")
+                    if g4 != got or g5 != got:
+                        viol["C08"] = {"cfg": cfg, "verdicts": v, "what": "after a consumer abandoned the generator of an earlier run on the same tokenizer, list / callback delivery of the same stream differ from the first list delivery",
+                                       "list_before": got, "list_after": g4, "callback_after": g5}
             if reads != len(v) + 1 and "C08" not in viol:
                 viol["C08"] = {"cfg": cfg, "verdicts": v, "what": "source read %d times for %d frames (end of stream must be requested exactly once)" % (reads, len(v))}
             for name, fn in (("C01", chk_C01), ("C02", chk_C02), ("C03", chk_C03)):
